@@ -258,6 +258,9 @@ func placeFault(t *kernel.Tape, s *scn) {
 		if len(s.Files) > 0 {
 			f := &s.Files[t.Choose(len(s.Files), "fault-file")]
 			f.ErrAt = t.Choose(f.Len+1, "fault-off")
+			if f.Len >= 513 && t.Bool(3, "fault-at-the-sniffing-window-edge") {
+				f.ErrAt = []int{511, 512, 513}[t.Choose(3, "window-edge")]
+			}
 		}
 	case "payload-src":
 		if s.Payload == "reader" || s.Payload == "readcloser" {
